@@ -33,6 +33,7 @@ type Io = (ByteWriter, ByteReader);
 /// Re-exports of crate-private items for the external verification harness (feature `verif`).
 #[cfg(feature = "verif")]
 pub mod verif_hooks {
+    pub use crate::agent::verif_hooks as agent;
     pub mod timeout_coord {
         pub use crate::timeout_coord::{
             agent_timeout_coordinator, downlink_timeout_coordinator, Receiver, VoteResult, Voter,
